@@ -360,6 +360,7 @@ struct Reference {
     saved: Option<(KeyMap, Option<Vec<T>>)>,
     on_finish: Fin,
     hidden: bool,
+    finished: bool,
     // bookkeeping for the input distribution only
     msg_shown: bool,
     lits_shown: bool,
@@ -652,6 +653,8 @@ struct Exec {
     stale_fail: Option<String>,
     shape_fail: Option<String>,
     build_panic: bool,
+    /// (rendering, key number, width, text) of the numeric keys whose text is not constant
+    pernum: Vec<(u64, u32, Option<u16>, String)>,
 }
 
 /// [multi]: the bar is the only member of a MultiProgress that draws to the recording terminal
@@ -686,17 +689,20 @@ fn execute(ops: &[Op], multi: bool) -> Exec {
         saved: None,
         on_finish: Fin::AndClear,
         hidden: false,
+        finished: false,
         msg_shown: false,
         lits_shown: false,
         saved_tw: 8,
     };
     spy.take();
+    let mut renderings: u64 = 0; // format_state calls so far (a hidden bar is not rendered)
     for (i, o) in ops.iter().enumerate() {
         // ---- reference bookkeeping (history-defined values) + distribution
         ex.counts.push(format!("op:{}", o.name()));
         let mut expect_draw = false;
         let apply_fin = |rf: &mut Reference, f: &Fin| {
             rf.hidden = matches!(f, Fin::AndClear);
+            rf.finished = true;
             if let Fin::WithMessage(x) | Fin::AbandonWithMessage(x) = f {
                 rf.msg = x.clone();
                 rf.msg_shown = false;
@@ -814,6 +820,24 @@ fn execute(ops: &[Op], multi: bool) -> Exec {
                     }
                 }
             }
+        }
+        // ---- the environment of this rendering: {per_sec} depends on its width (a precision) and
+        // on whether the bar is finished (state.rs:330-336: estimator while in progress,
+        // pos / elapsed afterwards = 0/0 on a clock at rest)
+        if expect_draw && !rf.hidden {
+            if let Some(tpl) = &rf.tpl {
+                for p in tpl {
+                    if let T::Ph(h) = p {
+                        if let Key::Num(k) = h.key {
+                            if NUM_KEYS[k].0 == "per_sec" {
+                                ex.pernum.push((renderings, NUM_KEYS[k].1, h.width, probe_per_sec(h.width, rf.finished)));
+                                ex.counts.push(format!("environment:per_sec:{}", if rf.finished { "finished-bar" } else { "bar-in-progress" }));
+                            }
+                        }
+                    }
+                }
+            }
+            renderings += 1;
         }
         // ---- the implementation
         let mut got: Option<String> = None;
@@ -1004,6 +1028,35 @@ fn probe_nums() -> Vec<(u32, String)> {
         .collect()
 }
 
+thread_local! {
+    static PER_SEC: std::cell::RefCell<std::collections::HashMap<(Option<u16>, bool), String>> = Default::default();
+}
+/// the text {per_sec} writes (before padding) for a given placeholder width on a bar at position
+/// 0 with the clock at rest, in progress or finished; observed on the crate, once per argument
+fn probe_per_sec(width: Option<u16>, finished: bool) -> String {
+    if let Some(x) = PER_SEC.with(|m| m.borrow().get(&(width, finished)).cloned()) {
+        return x;
+    }
+    let spy = Spy::new(200, u16::MAX);
+    let pb = ProgressBar::with_draw_target(None, ProgressDrawTarget::term_like(Box::new(spy.clone())));
+    let t = match width {
+        Some(w) => format!("{{per_sec:{w}}}"),
+        None => "{per_sec}".to_string(),
+    };
+    pb.set_style(ProgressStyle::with_template(&t).unwrap());
+    if finished {
+        pb.abandon();
+    }
+    spy.take();
+    pb.tick();
+    let line = spy.take().into_iter().find_map(|t| if let TOp::Str(x) = t { Some(x) } else { None }).unwrap_or_default();
+    std::mem::forget(pb);
+    // a sized field pads on the right (left alignment, no truncation): the text itself never ends with a space
+    let text = line.trim_end_matches(' ').to_string();
+    PER_SEC.with(|m| m.borrow_mut().insert((width, finished), text.clone()));
+    text
+}
+
 fn collect_chars(ops: &[Op], ex: &Exec, nums: &[(u32, String)], acc: &mut std::collections::BTreeSet<char>) {
     let mut add = |s: &str| acc.extend(s.chars());
     for o in ops {
@@ -1028,6 +1081,7 @@ fn collect_chars(ops: &[Op], ex: &Exec, nums: &[(u32, String)], acc: &mut std::c
         }
     }
     nums.iter().for_each(|(_, x)| add(x));
+    ex.pernum.iter().for_each(|(_, _, _, x)| add(x));
     add(DEFAULT_TICKS);
     add(DEFAULT_PCHARS);
     add("\0 ");
@@ -1083,9 +1137,17 @@ fn report(s: &mut Session, ops: &[Op], ex: &Exec, twin: Option<&Exec>, nums: &[(
         })
         .collect();
     let coq = format!(
-        "({TERM_W}, {}, {}, {}, {})",
+        "({TERM_W}, {}, {}, {}, {}, {})",
         clist(wt),
         clist(nums.iter().map(|(id, x)| format!("({id}, {})", cstr(x)))),
+        clist(ex.pernum.iter().map(|(d, id, w, x)| format!(
+            "({d}, {id}, {}, {})",
+            match w {
+                Some(w) => format!("Some {w}"),
+                None => "None".into(),
+            },
+            cstr(x)
+        ))),
         clist(ops.iter().map(|o| o.coq())),
         clist(ex.outs.iter().map(|o| o.coq()))
     );
@@ -1132,7 +1194,7 @@ fn main() {
     // styled placeholders write their escape sequences whatever stdout is
     console::set_colors_enabled(true);
     let header = "From IndModel Require Import Base Tabs.\nFrom IndModel Require Padded.\nOpen Scope N_scope.\n";
-    let mut s = Session::new(&a, "C16", header, "(N * list (N * N) * list (N * text) * list op * list out)%type", "c16_check");
+    let mut s = Session::new(&a, "C16", header, "(N * list (N * N) * list (N * text) * list (N * N * option N * text) * list op * list out)%type", "c16_check");
     s.shard_size = 120;
     s.rule = "histories (length 1..30) of set_tab_width/with_tab_width, set_style/with_style (fresh style, style().template(), saved clone), set_message/with_message/set_prefix/with_prefix/finish_with_message/abandon_with_message/with_finish/finish_using_style, tick, println (texts with TABs, several lines, empty), message()/prefix() on one bar drawing to a recording TermLike of 40 columns; texts of 0..7 characters with TAB probability 1/3 (also tab-free and tab-only), long messages (8..60) for truncation, tab widths 0,1,2,3,4,8,16 and random up to 40, templates of 0..6 parts; 2 in 5 histories are 'rich': placeholders of every kind (msg, prefix, custom, wide_msg, wide_bar, bar, spinner, 12 numeric keys) with alignment / width / truncation / style / alt style, and styles with their own tick strings / progress characters, a third of those with TABs (each such history is also run with those TABs replaced: the twin decides the failure class); every history is compared with the model; non-trivial = at least 2 ops; distinct = distinct history text".into();
     let mut g = Gen { r: Rng::new(a.seed) };
